@@ -208,6 +208,10 @@ def run(ctx):
                     lambda v: em.correct_pva(make_pva(v), vec(v, X9, 7))[["alt", "VD"]],
                     lambda v: [v["h"], v["VD"]], BOX, cos_nonneg=COSNN, py=py, cell_names=["alt", "VD"])
 
+    # frame of the modules under contract (no state kept between calls, arguments left alone): same analysis as C19
+    from props import C19 as _C19
+    ctx.guard(_C19.frame_obligations, ctx, py, "C05", {'error_model', 'sim', 'transform'})
+
 
 def _is_roundtrip_zero(c0):
     """angle differences at eps=0 have the form (180/pi)*(atan2(Y,X) - a) or asin form: decided by the
